@@ -613,6 +613,31 @@ func (w *world) ruleBuf(a *agg) {
 				} else {
 					a.violate("BUF-1", construct, pos, "Buffer.ByteLength is not the writer's running offset bytesWritten")
 				}
+				// glTF: buffer.byteLength >= 1 — the buffer is declared only when something was written
+				guard := false
+				for _, ec := range edgeConds(st.Block()) {
+					bo, ok := ec.cond.(*ssa.BinOp)
+					if !ok || !w.isLoadOfWriterField(stripConv(bo.X), w.field["bytesWritten"]) {
+						continue
+					}
+					c, ok := ssau.ConstInt(bo.Y)
+					if !ok {
+						continue
+					}
+					switch {
+					case ec.pos && bo.Op == token.GTR && c >= 0, ec.pos && bo.Op == token.GEQ && c >= 1, ec.pos && bo.Op == token.NEQ && c == 0,
+						!ec.pos && bo.Op == token.LEQ && c >= 0, !ec.pos && bo.Op == token.LSS && c >= 1, !ec.pos && bo.Op == token.EQL && c == 0:
+						guard = true
+					}
+				}
+				if !strings.Contains(fn.Name(), "verifControl") {
+					gc := P.FuncName(fn) + "#Buffer.nonempty"
+					if guard {
+						a.hold("BUF-1", gc, pos, "buffer declared only when bytesWritten > 0")
+					} else {
+						a.violate("BUF-1", gc, pos, "a buffer is declared even when nothing was written: glTF requires buffer.byteLength ≥ 1 (and the GLB writer omits the BIN chunk in that case)")
+					}
+				}
 			case "URI":
 				construct := P.FuncName(fn) + "#Buffer.URI"
 				bo, ok := st.Val.(*ssa.BinOp)
